@@ -52,7 +52,7 @@ pub fn gen(rng: &mut Rng, tier: Tier, idx: u64) -> Case {
     let (level, name) = match rng.below(4) {
         0 | 1 => (-1, 0),
         2 => (((idx / 3) % 256) as i64, 0),
-        _ => (if rng.chance(1, 2) { ((idx / 3) % 256) as i64 } else { -1 }, rng.range(1, 30) as i64),
+        _ => (if rng.chance(1, 2) { ((idx / 3) % 256) as i64 } else { -1 }, rng.range(1, 37) as i64),
     };
     c.n = vec![dec, level, name];
     let pp = *rng.pick(&[0u64, 200]);
@@ -77,7 +77,24 @@ fn build(c: &Case) -> (Vec<u8>, Vec<u8>, u8, usize) {
                 "", "M", "MQ", "MQT", "MQTTT", "MQIsd", "MQIsdpX", "MQTT-SN", "MQTTMQTT", "MQIsdpv3", "MQTT 3.1.", "MQTT 3.1.1", "MQIsdpMQIsdp",
                 "mqtt", "Mqtt", "MQTt", "MQISDP", "mqisdp", "MqIsDp", "MQIsdP", "\0MQTT", "\0\0MQTT", "\0MQIsdp", "MQTT\0", "MQIsdp\0", " MQTT", "MQTT ",
             ];
-            cn.proto_name = Bs::s(NAMES[(k as usize - 3) % NAMES.len()]);
+            let j = k as usize - 3;
+            cn.proto_name = if j < NAMES.len() {
+                Bs::s(NAMES[j])
+            } else {
+                // very long names, and genuine names followed by padding of 255 / 256 / 257 / 512 bytes
+                // (a length kept in one byte, or compared on a prefix only, would accept those)
+                let genuine = c.fam.proto_name();
+                match j - NAMES.len() {
+                    0 => Bs(vec![b'M'; 65_535]),
+                    1 => Bs(vec![b'Q'; 65_534]),
+                    n => {
+                        let pad = [255usize, 256, 257, 512, 65_280][(n - 2) % 5];
+                        let mut v = genuine.to_vec();
+                        v.extend(std::iter::repeat(b' ').take(pad.min(65_535 - v.len())));
+                        Bs(v)
+                    }
+                }
+            };
         }
     }
     let e = refcodec::ref_encode(&a2, c.fam, &Style::default());
